@@ -57,13 +57,25 @@ def run_direct(run, quick):
     lines, impls, cases = [], [], []
     rng = run.rng('direct')
     vals = list(ADVERSARIAL) + [rng.uniform(-300, 70000) for _ in range(20)] + [rng.randint(-5, 300) + 0.5 for _ in range(10)]
-    arr = np.array(vals, dtype='float32').reshape(1, -1)
+    arr32 = np.array(vals, dtype='float32').reshape(1, -1)
+    # integer blocks too (a RasterArray built through the API may hold any dtype): values over the whole range of the type,
+    # 0 = nodata of the block
+    int_srcs = {}
+    for sdt in ('uint8', 'int8', 'uint16', 'int16', 'int32'):
+        info = np.iinfo(sdt)
+        pts = sorted(v for v in {int(info.min), int(info.min) + 1, -129, -128, -1, 0, 1, 2, 127, 128, 200, 255, 256, 32767, 32768, 40000,
+                                 65535, 65536, int(info.max) - 1, int(info.max)} if info.min <= v <= info.max)
+        int_srcs[sdt] = np.array(pts, dtype=sdt).reshape(1, -1)
     k = 0
-    for dtype in DTYPES:
-        for nd in nodatas_for(dtype):
+    combos = [('float32', dtype, nd) for dtype in DTYPES for nd in nodatas_for(dtype)]
+    combos += [(sdt, dtype, nd) for sdt in int_srcs for dtype in DTYPES if not dtype.startswith('float') and dtype != sdt
+               for nd in (None, RANGE[dtype][1])]
+    for sdt, dtype, nd in combos:
+        if True:
             k += 1
-            ra = RasterArray(arr.copy(), rasters.CRS3857, Affine(1, 0, 5, 0, -1, 9), nodata=float('nan'))
-            case = dict(i=10**6 + k, op='_convert_array_dtype', dtype=dtype, nodata=ndtok(nd))
+            arr = arr32 if sdt == 'float32' else int_srcs[sdt]
+            ra = RasterArray(arr.copy(), rasters.CRS3857, Affine(1, 0, 5, 0, -1, 9), nodata=float('nan') if sdt == 'float32' else 0)
+            case = dict(i=10**6 + k, op='_convert_array_dtype', src_dtype=sdt, dtype=dtype, nodata=ndtok(nd))
             try:
                 out = ra._convert_array_dtype(dtype, nodata=nd)
                 mask = ra.mask
@@ -81,13 +93,13 @@ def run_direct(run, quick):
                 run.fail(case, f'_convert_array_dtype raised {type(ex).__name__}: {ex}', signature=dict(kind='raises'))
                 continue
             run.evaluations += 1
-            run.hist[f'direct dtype={dtype}'] += 1
-            run.nontrivial.add(('direct', dtype, ndtok(nd)))
+            run.hist[f'direct {sdt}->{dtype}'] += 1
+            run.nontrivial.add(('direct', sdt, dtype, ndtok(nd)))
             # leg 3: the property's own predicate on the code's numbers
             if rep != 'err' and not dtype.startswith('float'):
                 lo, hi = RANGE[dtype]
                 for j, t in enumerate(toks):
-                    x = float(arr[0, j])
+                    x = float(arr[0, j]) if (sdt == 'float32' or arr[0, j] != 0) else float('nan')
                     n = int(t.split(':')[0])
                     if np.isnan(x):
                         if nd is not None and n != int(nd):
@@ -101,7 +113,8 @@ def run_direct(run, quick):
                         run.fail(case, f'{x!r} -> {dtype}: got {n}, nearest-even saturated value is {exp}',
                                  signature=dict(kind='round-saturate'))
                         break
-            lines.append(f'convert {dtype} {ndtok(nd)} ' + ' '.join(xtok(v) for v in arr[0]))
+            lines.append(f'convert {dtype} {ndtok(nd)} ' + ' '.join(
+                xtok(v) if (sdt == 'float32' or v != 0) else 'nan' for v in arr[0]))
             impls.append(rep)
             cases.append(case)
     failed = {f['case']['i'] for f in run.failures}
